@@ -431,7 +431,7 @@ Lemma ch_ext_status : forall merge m,
 Proof. reflexivity. Qed.
 Lemma ch_ext_curves : forall merge m l, l <> [] -> Forall (fun x => x < 65536) l -> 2 * len l < 65534 ->
   ch_ext merge m (extSupportedGroups, vec16 (u16s l)) =
-  Some (ch_set_curves m (if merge then ch_curves m ++ l else last_only l (ch_curves m))).
+  Some (ch_set_curves m (if merge then ch_curves m ++ l else l)).
 Proof.
   intros merge m l Hne Hwf Hl. unfold ch_ext.
   change (extSupportedGroups =? extServerName) with false. change (extSupportedGroups =? extTrustedCAKeys) with false.
@@ -443,7 +443,7 @@ Proof.
 Qed.
 Lemma ch_ext_sigalgs : forall merge m l, l <> [] -> Forall (fun x => x < 65536) l -> 2 * len l < 65534 ->
   ch_ext merge m (extSignatureAlgorithms, vec16 (u16s l)) =
-  Some (ch_set_sigalgs m (if merge then ch_sigalgs m ++ l else last_only l (ch_sigalgs m))).
+  Some (ch_set_sigalgs m (if merge then ch_sigalgs m ++ l else l)).
 Proof.
   intros merge m l Hne Hwf Hl. unfold ch_ext.
   change (extSignatureAlgorithms =? extServerName) with false. change (extSignatureAlgorithms =? extTrustedCAKeys) with false.
@@ -504,12 +504,6 @@ Lemma fold_opt_if0 : forall S E (f : S -> E -> option S) st st' (c : bool) e,
   fold_opt f st (if c then [e] else []) = Some (if c then st' else st).
 Proof. intros S E f st st' [] e H; cbn [fold_opt]; [rewrite H by auto|]; reflexivity. Qed.
 
-(* what decoding the encoding yields: tlcp the message itself; dtlcp keeps only the last
-   supported group / signature algorithm (finding K6) *)
-Definition ch_norm (merge : bool) (m : chello) : chello :=
-  if merge then m
-  else ch_set_sigalgs (ch_set_curves m (last_only (ch_curves m) [])) (last_only (ch_sigalgs m) []).
-
 Lemma nonnil_len : forall A (l : list A), nonnil l = true -> l <> [].
 Proof. intros A [|x l] H; [discriminate | congruence]. Qed.
 Lemma nonnil_len1 : forall l : bytes, nonnil l = true -> 1 <= len l.
@@ -531,7 +525,7 @@ Qed.
 Lemma ch_rest_decode_encode : forall cookie merge m, wf_ch cookie m ->
   ch_rest_dec merge (ch_vers m) (ch_random m) (ch_sid m) (ch_cookie m)
     (vec16 (u16s (ch_suites m)) ++ vec8 (ch_comp m) ++
-     (if empty (ch_exts_enc m) then [] else vec16 (ch_exts_enc m))) = Some (ch_norm merge m).
+     (if empty (ch_exts_enc m) then [] else vec16 (ch_exts_enc m))) = Some m.
 Proof.
   intros cookie merge m Hwf. pose proof (ch_ext_list_bounds _ _ Hwf) as Hbounds.
   destruct Hwf as (Hv & Hro & Hrl & [Hso Hsl] & [Hcko Hckl] & Hck & Hsu & Hsul & [Hcoo Hcol] & [Hsno Hsnl] & Hdot &
@@ -546,7 +540,7 @@ Proof.
     destruct m as [v r s ck su c sn tas oc cu sa al ci]; cbn [ch_sni ch_tas ch_ocsp ch_curves ch_sigalgs ch_alpn ch_cid nonnil] in *.
     destruct sn; [|discriminate]. destruct tas; [|discriminate]. destruct oc; [discriminate|].
     destruct cu; [|discriminate]. destruct sa; [|discriminate]. destruct al; [|discriminate]. destruct ci; [|discriminate].
-    destruct merge; reflexivity.
+    reflexivity.
   - replace (empty (vec16 (ch_exts_enc m))) with false by (unfold vec16, u16; reflexivity).
     rewrite <- (app_nil_r (vec16 _)), rd_vec16_enc by auto. cbn [empty negb].
     rewrite ch_exts_enc_list. rewrite exts_split_enc by auto.
@@ -565,13 +559,13 @@ Proof.
     2:{ intros Hc. apply ch_ext_alpn; auto. apply nonnil_len; auto. }
     erewrite fold_opt_if0.
     2:{ intros Hc. apply ch_ext_cid; auto. }
-    f_equal. unfold m0, ch_norm.
+    f_equal. unfold m0.
     destruct m as [v r s ck su c sn tas oc cu sa al ci]; cbn [ch_vers ch_random ch_sid ch_cookie ch_suites ch_comp ch_sni ch_tas ch_ocsp ch_curves ch_sigalgs ch_alpn ch_cid].
     destruct merge, sn, tas, oc, cu, sa, al, ci; reflexivity.
 Qed.
 
 Lemma ch_body_decode_encode : forall cookie merge m, wf_ch cookie m ->
-  ch_body_dec cookie merge (ch_body_enc cookie m) = Some (ch_norm merge m).
+  ch_body_dec cookie merge (ch_body_enc cookie m) = Some m.
 Proof.
   intros cookie merge m Hwf. pose proof (ch_rest_decode_encode cookie merge m Hwf) as Hrest.
   destruct Hwf as (Hv & Hro & Hrl & [Hso Hsl] & [Hcko Hckl] & Hck & _).
